@@ -67,13 +67,15 @@ def _inst_app(inst, k):
     return 'foo.%s#%010d' % (inst, k)
 
 
-def make_scn(name, conts, hosts=('host1', 'host2'), endpoints=('http',), identity=True):
-    """conts: list of (container, instance) oldest first."""
+def make_scn(name, conts, hosts=('host1', 'host2'), endpoints=('http',), identity=True, apps=None):
+    """conts: list of (container, instance) oldest first; apps: instance -> app name
+    (default foo.<instance>#<n>)."""
     insts = []
     for _, a in conts:
         if a not in insts:
             insts.append(a)
     app = {a: _inst_app(a, i + 1) for i, a in enumerate(insts)}
+    app.update(apps or {})
     paths = {}
     for i, a in enumerate(insts):
         proid, rest = app[a].split('.', 1)
@@ -113,6 +115,13 @@ SCENARIOS = {
     'a2b1': make_scn('a2b1', [('c1', 'a'), ('c2', 'a'), ('c3', 'b')]),
     'a3': make_scn('a3', [('c1', 'a'), ('c2', 'a'), ('c3', 'a')]),
     'k2': make_scn('k2', [('c1', 'a'), ('c2', 'a')], endpoints=()),       # extension, quick tier
+    # names that share a prefix (helpers of presence.py compare DATA with the host name):
+    # hosts host1 / host10, two instances of one app (#1 / #10: endpoints of another instance
+    # of the same app, identities 0 / 1 of the same group)
+    'px': make_scn('px', [('c1', 'a'), ('c2', 'b'), ('c3', 'a')], hosts=('host1', 'host10'),
+                   apps={'a': 'foo.app#0000000001', 'b': 'foo.app#0000000010'}),
+    'py': make_scn('py', [('c1', 'a'), ('c2', 'a'), ('c3', 'b')], hosts=('node', 'node-b'),
+                   apps={'a': 'proid.app#0000000001', 'b': 'proid.app#0000000010'}),
     # beyond the model-checked constants (random schedules only)
     'a3b2e2': make_scn('a3b2e2', [('c1', 'a'), ('c2', 'a'), ('c3', 'b'), ('c4', 'a'), ('c5', 'b')],
                        endpoints=('http', 'ssh')),
@@ -267,6 +276,7 @@ class GatedClient(zkfake.ZkFakeClient):
         def fn():
             r = zkfake.ZkFakeClient.get(self, *a, **k)
             self.cur['seen'] = r[1].ephemeralOwner
+            self.cur['gd'] = r[0].decode('utf-8', 'replace') if isinstance(r[0], bytes) else ''
             return r
         return self._run(fn)
 
@@ -836,7 +846,7 @@ class World:
         self.schedule.append(('ACall', [[list(f) for f in fired]]))
         self._log(dict(
             ev='acall', s=ADMIN_SESSION, rk=slot.kind, rh=slot.host, ra=slot.cont,
-            op=rec['op'], path=rec['path'], res=rec['res'],
+            op=rec['op'], path=rec['path'], res=rec['res'], gd=rec.get('gd', ''),
             w=[dict(op=op, path=p, o=-1 if o is None else self._sess(o), a=bool(a))
                for op, p, _s, o, a in rec['w']],
             fired=fired))
@@ -888,6 +898,10 @@ class World:
         if act == 'ACall':
             return self.acall(args[0] if args else None)
         if act == 'AEnd':
+            return self.aend()
+        if act == 'ARun':                # hand-written schedules: the helper run to its end
+            while self.can_acall():
+                self.acall()
             return self.aend()
         if act == 'Pad':
             return True
